@@ -155,6 +155,20 @@ def check_quals(ctx, quals, thr_ee, thr_aer):
     got = expected_errors(quals)
     if not math.isclose(got, exp, rel_tol=1e-5, abs_tol=1e-9):
         ctx.violation("expected-errors", f"expected_errors({quals!r}) = {got!r}, reference {exp!r}", case)
+    # other quality bases than 33 (--quality-base takes any number): for characters at or above the base the sum is
+    # defined; the function may refuse the string, but a value it returns has to be that sum
+    h = sum(map(ord, quals)) + len(quals)
+    base = (0, 10, 20, 32, 40, 59, 64, 100)[h % 8]
+    if quals and all(ord(c) >= base for c in quals):
+        ctx.count("expected_errors_calls_with_another_base")
+        try:
+            got_b = expected_errors(quals, base)
+        except ValueError:
+            ctx.count("expected_errors_other_base_refused")
+        else:
+            exp_b = R.expected_errors(quals, base)
+            if not math.isclose(got_b, exp_b, rel_tol=1e-5, abs_tol=1e-12):
+                ctx.violation("expected-errors", f"expected_errors({quals!r}, {base}) = {got_b!r}, reference {exp_b!r}", dict(case, base=base))
     rec = SequenceRecord("r", "A" * len(quals), quals)
     info = ModificationInfo(rec)
     # thresholds: compare only when the reference is clearly on one side
